@@ -130,6 +130,7 @@ DEFAULT_CFG = dict(
     pipe_cap=None,  # bytes in flight before a sender blocks (None = unbounded)
     canonical=False,  # zero jitter, FIFO tie-break, no faults
     clock_res=0.0,  # fault "coarse clock": time() only changes every clock_res seconds (two readings can be equal)
+    clock_jumps=None,  # fault "forward clock jump": list of [reading number, seconds]
     max_yields=2_000_000,
 )
 
@@ -152,8 +153,11 @@ class Sim:
         self.keep_events = True
         self.nyields = 0
         self.stats = dict(switches=0, stalls=0, poll_timeouts=0, msgs=0, long_lat=0,
-                          send_blocked=0, clock_reads=0, coarse_equal=0)
+                          send_blocked=0, clock_reads=0, coarse_equal=0, clock_jumps=0)
         self._shown = None
+        self.wall_offset = 0.0
+        if self.cfg.get("clock_jumps"):
+            self.cfg["clock_jumps"] = sorted([int(a), float(b)] for a, b in self.cfg["clock_jumps"])
         self.main = Task(self, "main", None, ())
         self.main.thread = threading.current_thread()
         self.main.wake = 0.0
@@ -317,14 +321,24 @@ class Sim:
     def time(self):
         self.stats["clock_reads"] += 1
         self.pause(1e-6 if self.cfg["canonical"] else self.u(self.cfg["op"]), stallable=False)
+        # fault "forward clock jump" (NTP step, resume after suspend): from its k-th reading on the wall clock is dt
+        # ahead; scheduling time (self.now) is not affected
+        jumps = self.cfg.get("clock_jumps")
+        while jumps and jumps[0][0] <= self.stats["clock_reads"]:
+            self.wall_offset += float(jumps.pop(0)[1])
+            self.stats["clock_jumps"] += 1
         res = self.cfg.get("clock_res") or 0.0
         if res > 0:
-            shown = math.floor(self.now / res) * res
+            shown = math.floor((self.now + self.wall_offset) / res) * res
             if shown == self._shown:
                 self.stats["coarse_equal"] += 1
             self._shown = shown
             return self.EPOCH + shown
-        return self.EPOCH + self.now
+        return self.EPOCH + self.now + self.wall_offset
+
+    def wall(self):
+        """The wall-clock time a reading would show now (no yield, not counted as a reading)."""
+        return self.now + self.wall_offset
 
     def live_workers(self):
         return [t.name for t in self.tasks if t is not self.main and not t.done]
